@@ -34,6 +34,8 @@ pub enum Op {
     ApplyGalois { elt: usize, level: usize, seed: u64 },
     ApplyGaloisPlain { elt: usize, level: usize, seed: u64 },
     Encrypt { sym: bool, seed: u64 },
+    /// rotate_rows (BFV/BGV) / rotate_vector (CKKS) by a step count on the shared evaluator
+    Rotate { steps: isize, level: usize, seed: u64 },
     /// encode and decode on the shared encoder (immutable objects; exercised for the "encoder or context shared" clause)
     Encode { seed: u64 },
 }
@@ -52,6 +54,7 @@ impl Op {
             Op::ApplyGaloisPlain { .. } => "apply-galois-plain",
             Op::Encrypt { .. } => "encrypt",
             Op::Encode { .. } => "encode-decode",
+            Op::Rotate { .. } => "rotate-by-steps",
         }
     }
     pub fn to_json(&self) -> Value {
@@ -67,6 +70,7 @@ impl Op {
             Op::ApplyGaloisPlain { elt, level, seed } => json!({"op": "apply-galois-plain", "elt": elt, "level": level, "seed": seed}),
             Op::Encrypt { sym, seed } => json!({"op": "encrypt", "sym": sym, "seed": seed}),
             Op::Encode { seed } => json!({"op": "encode-decode", "seed": seed}),
+            Op::Rotate { steps, level, seed } => json!({"op": "rotate-by-steps", "steps": steps, "level": level, "seed": seed}),
         }
     }
     pub fn from_json(v: &Value) -> Option<Op> {
@@ -87,6 +91,7 @@ impl Op {
             "apply-galois-plain" => Op::ApplyGaloisPlain { elt: u("elt")? as usize, level: u("level")? as usize, seed: u("seed")? },
             "encrypt" => Op::Encrypt { sym: b("sym")?, seed: u("seed")? },
             "encode-decode" => Op::Encode { seed: u("seed")? },
+            "rotate-by-steps" => Op::Rotate { steps: v["steps"].as_i64()? as isize, level: u("level")? as usize, seed: u("seed")? },
             _ => return None,
         })
     }
@@ -124,6 +129,12 @@ impl Scn {
     fn ent_seeds(&self) -> Vec<u64> {
         (0..self.threads.len()).map(|t| prng::mix(self.ent, 0x7EAD, t as u64)).collect()
     }
+    fn rotate_steps(&self) -> Vec<isize> {
+        let mut v: Vec<isize> = self.threads.iter().flatten().filter_map(|o| if let Op::Rotate { steps, .. } = o { Some(*steps) } else { None }).collect();
+        v.sort();
+        v.dedup();
+        v
+    }
     fn galois_elts(&self) -> Vec<usize> {
         let mut v: Vec<usize> = self
             .threads
@@ -153,7 +164,17 @@ const MAX_SIZE: usize = 9;
 pub fn setup(scn: &Scn) -> Result<Setup, String> {
     gen::with_entropy(scn.ent, |_| {
         let world = gen::build_world(&scn.spec)?;
-        let elts = scn.galois_elts();
+        let mut elts = scn.galois_elts();
+        let steps = scn.rotate_steps();
+        if !steps.is_empty() {
+            let kcd = world.ctx.key_context_data().unwrap();
+            let tool = kcd.verif_galois_tool();
+            for e in util::catch_res(|| tool.get_elts_from_steps(&steps))? {
+                if !elts.contains(&e) {
+                    elts.push(e);
+                }
+            }
+        }
         let galois = if !elts.is_empty() && world.uses_keyswitching() {
             Some(util::catch_res(|| world.keygen.create_galois_keys_from_elts(&elts, false))?)
         } else {
@@ -271,6 +292,12 @@ pub fn exec_op(op: &Op, sh: &SharedObjs, su: &Setup) -> Vec<u8> {
             }
             p.set_parms_id(id);
             ser_obj(Obj::Plain(sh.eval.apply_galois_plain_new(&p, *elt)), &sh.ctx)
+        }
+        Op::Rotate { steps, level, seed } => {
+            let c = w.synthetic_cipher(&mut Prng::new(*seed), 2, lvl(*level), w.default_ntt());
+            let gk = su.galois.as_ref().expect("galois keys prepared at setup");
+            let r = if w.spec.scheme == CKKS { sh.eval.rotate_vector_new(&c, *steps, gk) } else { sh.eval.rotate_rows_new(&c, *steps, gk) };
+            ser_obj(Obj::Ct(r), &sh.ctx)
         }
         Op::Encode { seed } => {
             let mut r = Prng::new(*seed);
@@ -494,26 +521,27 @@ fn gen_scenario(rng: &mut Prng, run_seed: u64) -> Option<Scn> {
         max_primes: 4,
         qbits: vec![20, 25, 30, 33, 40, 45, 50, 60],
         tbits: vec![8, 13, 17],
-        batching: false,
+        batching: true,
     };
     let spec = gen::draw_spec(rng, &opts)?;
     let nlevels = spec.q.len() - 1;
     let n = spec.n;
     let nthreads = rng.range(2, 4);
-    let focus = rng.below(4); // 0 decrypt-heavy, 1 keygen-heavy, 2 galois-heavy, 3 mixed
+    let focus = rng.below(5); // 0 decrypt-heavy, 1 keygen-heavy, 2 galois-heavy, 3 mixed, 4 rotation-heavy
     let default_ntt = spec.scheme != BFV;
     let mut shared_elts: Vec<usize> = (0..rng.range(1, 3)).map(|_| 2 * rng.usize_below(n) + 1).collect();
     shared_elts.dedup();
     let mut threads = Vec::new();
     for _ in 0..nthreads {
-        let nops = rng.range(1, 3);
+        let nops = if focus == 4 { rng.range(2, 4) } else { rng.range(1, 3) };
         let mut ops = Vec::new();
         for _ in 0..nops {
             let pickset: &[u64] = match focus {
                 0 => &[0, 0, 0, 1, 2],
                 1 => &[3, 3, 4, 5, 6],
-                2 => &[5, 7, 7, 8, 8],
-                _ => &[0, 1, 2, 3, 4, 5, 6, 7, 8, 9, 10],
+                2 => &[5, 7, 7, 8, 8, 11, 11],
+                4 => &[11, 11, 11, 11, 7, 5],
+                _ => &[0, 1, 2, 3, 4, 5, 6, 7, 8, 9, 10, 11],
             };
             let k = *rng.pick(pickset);
             let level = rng.usize_below(nlevels.max(1));
@@ -547,7 +575,15 @@ fn gen_scenario(rng: &mut Prng, run_seed: u64) -> Option<Scn> {
                 }
                 8 => Op::ApplyGaloisPlain { elt: if rng.coin() { *rng.pick(&shared_elts) } else { 2 * rng.usize_below(n) + 1 }, level, seed },
                 9 => Op::Encrypt { sym: rng.coin(), seed },
-                _ => Op::Encode { seed },
+                10 => Op::Encode { seed },
+                _ => {
+                    // a small pool of step counts so that threads collide on the same and on different ones
+                    let half = (n / 2) as isize;
+                    let pool = [1isize, 2, 3, half - 1, -1, -2];
+                    let st = *rng.pick(&pool);
+                    let st = if st.unsigned_abs() as isize >= half || st == 0 { 1 } else { st };
+                    Op::Rotate { steps: st, level, seed }
+                }
             };
             ops.push(op);
         }
@@ -557,8 +593,7 @@ fn gen_scenario(rng: &mut Prng, run_seed: u64) -> Option<Scn> {
 }
 
 fn draw_strategy(rng: &mut Prng, nthreads: usize, approx_steps: usize) -> (Strategy, &'static str) {
-    match rng.below(11) {
-        10 => (Strategy::FreeRun, "free-run"),
+    match rng.below(10) {
         0..=3 => (Strategy::Random, "random"),
         4 | 5 => (Strategy::Sticky { stay: rng.range(8, 14) as u64 }, "sticky"),
         6 | 7 => {
@@ -622,12 +657,13 @@ fn sequential_violation(scn: &Scn, err: &str) -> Option<Violation> {
 struct Budget {
     scenarios: usize,
     schedules: usize,
+    free_runs: usize,
 }
 
 fn budget(tier: Tier) -> Budget {
     match tier {
-        Tier::Quick => Budget { scenarios: driver::scale(640), schedules: 24 },
-        Tier::Thorough => Budget { scenarios: driver::scale(16000), schedules: 96 },
+        Tier::Quick => Budget { scenarios: driver::scale(640), schedules: 24, free_runs: 8 },
+        Tier::Thorough => Budget { scenarios: driver::scale(16000), schedules: 96, free_runs: 24 },
     }
 }
 
@@ -721,6 +757,16 @@ fn one_run(i: usize, run_seed: u64, b: &Budget) -> RunOut {
         }
         if k == 0 {
             first_trace = Some((strategy_json(&strategy), ex.trace.clone(), ex.choices.clone()));
+        }
+    }
+    // supplementary net: a burst of truly parallel executions of the same scenario (no baton), for
+    // races inside synchronisation the lock wrapper cannot see; judged by the same oracle
+    for _ in 0..b.free_runs {
+        let Ok(ex) = execute(&scn, &su, &rf, Strategy::FreeRun, 0) else { continue };
+        evals += 1;
+        out.count("strategy.free-run", 1);
+        if let Some((class, part, detail)) = &ex.bad {
+            out.violations.push(violation(&scn, &ex, class, part, detail));
         }
     }
     out.count("evaluations", evals);
